@@ -14,7 +14,7 @@ from microschc.compressor.compressor import compress
 from microschc.decompressor.decompressor import decompress
 from microschc.ruler.ruler import Ruler
 
-RULE = ('(a) every Buffer operation of C05/C06/C13 with every operand snapshotted (content, length, padding, padding_length) before and '
+RULE = ('(a0) programs of 40 Buffer method calls on a pool of live objects run on the implementation and on the heap-level model of the class (BufferHeap.v): outcome of every call, identity of the returned object (an operand or a new object) and the four attributes of every object the caller holds compared after every step; (a) every Buffer operation of C05/C06/C13 with every operand snapshotted (content, length, padding, padding_length) before and '
         'after: non-in-place operations must leave every operand untouched, in-place ones must leave the receiver denoting the result; '
         '(b) histories of 30..300 compress/decompress calls (any interleaving of packets of the context\'s stack, foreign and malformed '
         'packets, directions Up/Dw, strategies FIRST/BEST) on ONE long-lived ContextManager, compared call by call with a freshly built '
@@ -456,6 +456,8 @@ def process_histories(rep, rnd, tier):
 def run(rep, tier, seed):
     tables0 = module_tables()
     bc.run_family(rep, 'C16', tier, seed)
+    import bufheap
+    bufheap.run(rep, rng_for(seed, 'C16-heap'), 200 if tier == 'quick' else 3000, 40)
     process_histories(rep, rng_for(seed, 'C16-process'), tier)
     synthetic_shared(rep, rng_for(seed, 'C16-synthetic'), tier)
     front_histories(rep, rng_for(seed, 'C16-front'), tier)
@@ -468,4 +470,7 @@ def run(rep, tier, seed):
 def replay(case):
     if case.get('layer') == 'buffer':
         return bc.replay(case)
+    if case.get('layer') == 'buffer-heap':
+        import bufheap
+        return bufheap.replay_line(case['driver_line'])
     return 're-run ./check C16 (histories are regenerated from the seed)'
